@@ -2,12 +2,22 @@
 Transformation pass to lift context expressions to the top-level.
 """
 
-from ..analysis import PartialEval, PartialEvalInfo
+from ..analysis import AssignDef, PartialEval, PartialEvalInfo
 from ..ast.fpyast import *
 from ..ast.visitor import DefaultTransformVisitor, DefaultVisitor
 from ..utils import Gensym
 from .cursor import Edit, EditLog
 from .path import FuncBody
+
+
+class _Reads(DefaultVisitor):
+    """Collects the variables an expression reads."""
+
+    def __init__(self):
+        self.found: list[Var] = []
+
+    def _visit_var(self, e: Var, ctx: None):
+        self.found.append(e)
 
 
 class _ContextFinder(DefaultVisitor):
@@ -31,6 +41,18 @@ class _ContextFinder(DefaultVisitor):
     def _visit_context(self, stmt: ContextStmt, ctx: bool):
         return super()._visit_context(stmt, False)
 
+    def _reads_no_local(self, e: Expr) -> bool:
+        """The lifted binding goes to the top of the function, ahead of every
+        local definition: it may only read what is bound on entry."""
+        reads = _Reads()
+        reads._visit_expr(e, None)
+        def_use = self.eval_info.def_use
+        for v in reads.found:
+            d = def_use.find_def_from_use(v)
+            if not (isinstance(d, AssignDef) and isinstance(d.site, Argument | FuncDef)):
+                return False
+        return True
+
     def _visit_expr(self, e: Expr, ctx: bool) -> Expr:
         # check if we know an expression evaluates
         # statically to a context; if so, we can lift it
@@ -40,6 +62,7 @@ class _ContextFinder(DefaultVisitor):
                 isinstance(v, Context)
                 and not isinstance(e, Var)
                 and not isinstance(e, ForeignVal)
+                and self._reads_no_local(e)
             ):
                 self.ctx_exprs.append(e)
 
